@@ -301,7 +301,8 @@ func (s *Server) readMessage() (json.RawMessage, error) {
 		at := -1
 		for i := len(line) - len("Content-Length:"); i >= 0; i-- {
 			// header field names are case-insensitive
-			if strings.EqualFold(line[i:i+len("Content-Length:")], "Content-Length:") {
+			if strings.EqualFold(line[i:i+len("Content-Length:")], "Content-Length:") && (i == 0 || !isHeaderNameByte(line[i-1])) {
+				// (not the tail of another header's name, such as X-Original-Content-Length)
 				at = i
 				break
 			}
@@ -336,6 +337,11 @@ func (s *Server) readMessage() (json.RawMessage, error) {
 	}
 
 	return json.RawMessage(content), nil
+}
+
+// isHeaderNameByte reports whether b can be part of a header field name.
+func isHeaderNameByte(b byte) bool {
+	return b == '-' || b == '_' || b >= '0' && b <= '9' || b >= 'a' && b <= 'z' || b >= 'A' && b <= 'Z'
 }
 
 // handleMessage processes a single message
